@@ -194,6 +194,8 @@ class Folder:
         self.calls = calls or {}
         self.max_steps = max_steps
         self._lay = {}
+        self._sgn = {}
+        self._cur_sgn = None
         self.depth = depth
         self.inline = inline      # fold calls of functions defined in the unit (pure helpers) instead of refusing them
         self._tabs = {}
@@ -280,6 +282,10 @@ class Folder:
                     tot = self.arith({}, "+", tot, self.arith({}, "*", v, 1 << (o2 - off)))
         if not hit:
             return 0
+        if isinstance(tot, int) and self._cur_sgn is not None and path in self._cur_sgn:
+            tot &= (1 << w) - 1
+            if self._cur_sgn[path] and tot >= 1 << (w - 1):
+                tot -= 1 << w
         return tot
 
     def store(self, key, v):
@@ -315,6 +321,12 @@ class Folder:
             for k2, v2 in v.items():
                 rec[path + "." + k2] = v2
             return
+        if isinstance(v, int) and lay is not None and path in lay and self._cur_sgn is not None and path in self._cur_sgn and lay[path][1]:
+            # a bit-field keeps what fits
+            w = lay[path][1]
+            v &= (1 << w) - 1
+            if self._cur_sgn[path] and v >= 1 << (w - 1):
+                v -= 1 << w
         rec[path] = v
 
     def layout(self, t):
@@ -327,6 +339,8 @@ class Folder:
         if rid not in self._lay:
             rec = self.fn.tu.recs_by_id.get(rid)
             self._lay[rid] = {p_: (o, w) for p_, o, w, sg in self.fn.tu.flatten_record(rec)} if rec else None
+            self._sgn[rid] = {p_: bool(sg) for p_, o, w, sg in self.fn.tu.flatten_record(rec)} if rec else None
+        self._cur_sgn = self._sgn.get(rid)
         return self._lay[rid]
 
     def ev(self, n):
